@@ -3,6 +3,7 @@
       Props/SrcTie_C01.v  phase_step_executors._from_*, svh / sh / pfh
       Props/SrcTie_C02.v  full_execution/result.py, exit_values.py
       Props/SrcTie_C05.v  (re-export) the LineNums ties C05's filter -line-nums relies on
+      Props/SrcTie_C06.v  (re-export) union / intersection of intervals (shared with C13)
       Props/SrcTie_C07.v  _un_escape_at_beginning_of_line
       Props/SrcTie_C09.v  the symbol-reference delimiters
       Props/SrcTie_C10.v  result_to_sh / result_to_pfh, AccumulatedComponents
@@ -15,6 +16,6 @@
       Props/SrcTie_C19.v  TIMEOUT__DEFAULT
     (each is added to its check by `common.source_tie('Cnn')` in the gen_tables of harness/cnn.py).
     This file only collects them (compiling it checks all of them). *)
-From Exactly Require Export Props.SrcTie_C05 Props.SrcTie_C07 Props.SrcTie_C11 Props.SrcTie_C15 Props.SrcTie_C17.
+From Exactly Require Export Props.SrcTie_C06 Props.SrcTie_C05 Props.SrcTie_C07 Props.SrcTie_C11 Props.SrcTie_C15 Props.SrcTie_C17.
 From Exactly Require Export Props.SrcTie_C01 Props.SrcTie_C02 Props.SrcTie_C10 Props.SrcTie_C12 Props.SrcTie_C13
   Props.SrcTie_C16 Props.SrcTie_C19 Props.SrcTie_C09.
